@@ -1,5 +1,5 @@
 """Per-property wording for MANIFEST.json (levels, trusted base, technique)."""
-HOOK_COMMITS = []
+HOOK_COMMITS = ["c788236", "540187a", "a1185f5"]
 NOT_APPLICABLE = {}
 
 NOTE_COMMON = ("Trusted: Eigen 3.4 dense solvers in long double as reference, the sanitizer runtimes (a positive-control canary is run "
@@ -42,4 +42,50 @@ TEXT = {
         design_ref="DESIGN.md section 3, C10",
         level_note=NOTE_COMMON + " Nonsingularity of a generated input is decided by a long-double full-pivoting LU.",
         technique="runtime oracle (extended-precision residual, status and exception checks, NaN-poisoned unused triangle) over generated inputs, ASan+UBSan build"),
+    "C01": dict(
+        level_text="Exploration: ~7000 (quick) random init()/compute() histories per run on the seven symmetric/Hermitian solver configurations in float/double/long double under ASan+UBSan; "
+                   "after EVERY compute() whatever the accessors hand back is judged in long double (unit norm, residual against tol*scale + rounding with the back-transformed scale in shift mode, "
+                   "orthonormality). The seeded exploration draws from the domain on which the repaired tree is clean; a fixed seed-independent corpus covers the finding-prone domain "
+                   "(breakdown-prone classes, far-from-unit scales, tiny problems) and its failing members are listed one by one in known_findings.json.",
+        design_ref="DESIGN.md sections 3 (C01) and 4",
+        level_note=NOTE_COMMON,
+        technique="runtime oracle (extended-precision residual / orthonormality monitor at the public accessors) over seeded histories + fixed regression corpus, ASan+UBSan build"),
+    "C02": dict(
+        level_text="Exploration as C01 for GenEigsSolver, GenEigsRealShiftSolver and GenEigsComplexShiftSolver (dense and sparse), float/double/long double: complex residual against "
+                   "tol*scale (derived back-transformation bounds for the real and the complex shift, the latter with the conditioning of the rejected root), unit norm, no duplicated pair at a simple "
+                   "eigenvalue; clean-domain seeded exploration + fixed corpus over the finding-prone domain.",
+        design_ref="DESIGN.md sections 3 (C02) and 4",
+        level_note=NOTE_COMMON,
+        technique="runtime oracle (extended-precision residual monitor at the public accessors) over seeded histories + fixed regression corpus, ASan+UBSan build"),
+    "C05": dict(
+        level_text="Exploration: a consistency monitor applied after every compute() of ~3900 (quick) random call interleavings over 17 solver configurations: counts, status, eigenvectors(m) for every m, "
+                   "sorting order, value/column pairing, num_operations() against a counting operator wrapper, restarts (hook events) against maxit, NotComputed/empty before the first compute().",
+        design_ref="DESIGN.md section 3, C05",
+        level_note=NOTE_COMMON,
+        technique="runtime API-consistency monitor with counting operator wrapper and factorization hook events, ASan+UBSan build"),
+    "C06": dict(
+        level_text="Exploration: history checker comparing, bit for bit, the observed init(v); compute(args) on a fresh solver, on a solver reused after a random pre-history (incl. non-converging and "
+                   "throwing computes) and on a second solver sharing the operator object; operator probed with a fixed vector before/after compute(). 3000 (quick) triples over 17 configurations.",
+        design_ref="DESIGN.md section 3, C06",
+        level_note=NOTE_COMMON + " Davidson / PartialSVD reuse is covered by C15 / C16.",
+        technique="runtime history checker (bitwise snapshot comparison, operator probe), ASan+UBSan build"),
+    "C13": dict(
+        level_text="Exploration under two sanitizer builds (Eigen assertions on / release-like): ~4500 hostile runs per build and tier over 17 solver configurations + PartialSVD with degenerate matrices, "
+                   "validating operator wrapper, operator-application bound, finiteness/exception classifier; plus a small-scope enumeration (~12000 states quick) of the private restart bookkeeping "
+                   "(nev_adjusted + the real restart) through guarded friend access for every ncv <= 10 (14 thorough).",
+        design_ref="DESIGN.md section 3, C13",
+        level_note=NOTE_COMMON + " Buckling mode with a singular K_G (eigenvalues at infinity) is outside the documented domain and not generated.",
+        technique="AddressSanitizer/UBSan + validating/counting operator wrapper + outcome classifier over hostile workloads; small-scope state enumeration through guarded friend"),
+    "C14": dict(
+        level_text="Fault enumeration, exhaustive in the fault index: for 102 (quick) solver/input pairs every operator application index of the fault-free run (A-operator and B-operator) is faulted once "
+                   "(~15000 faulted runs) plus ~9000 fault pairs; exception identity, call site, bitwise recovery against the baseline, allocated bytes and LeakSanitizer.",
+        design_ref="DESIGN.md section 3, C14",
+        level_note=NOTE_COMMON,
+        technique="exhaustive fault injection at the operator wrapper with bitwise baseline comparison, ASan+LSan build"),
+    "C20": dict(
+        level_text="Exploration over schedules under ThreadSanitizer: 36 (quick) / ~1000 (thorough) launches of 2..16 threads running permuted task lists over all solver configurations with private and "
+                   "shared-const operators and injected yields; zero TSan reports and bitwise agreement with sequential results; overlap of task executions is measured and reported.",
+        design_ref="DESIGN.md section 3, C20",
+        level_note=NOTE_COMMON,
+        technique="ThreadSanitizer + bitwise concurrent-vs-sequential comparison over randomized thread launches"),
 }
